@@ -168,7 +168,12 @@ class InternalCompiler(Compiler):
         return dest
 
     def compile_or(self, qc, expr, dest=None) -> int:
-        # TODO: this won't work on len(expr.args) > 2
+        # 0. The xor construction below is valid only for two operands: rewrite
+        # a larger or as ~(~a & ~b & ...)
+        if len(expr.args) > 2:
+            return self.compile_expr(
+                qc, Not(And(*[Not(e) for e in expr.args])), dest=dest
+            )
 
         # 1. Compile every argument
         erets = list(map(lambda e: self.compile_expr(qc, e), expr.args))
